@@ -1,3 +1,8 @@
+import json
+import os
+import re
+
+import vlib
 from check import Prop
 
 
@@ -19,7 +24,14 @@ class C21(Prop):
              "every byte string; the expansion is the word's pieces rendered once (values never rescanned); each Env key "
              "reaches the child once with exactly its value; every non-zero exit status is reported with that status. The "
              "model is tied to the code by starting the real Cmd on generated templates and environments (the child dumps its "
-             "argv/environ) and on every exit status 0..255, and comparing inside Coq.",
+             "argv/environ) and on every exit status 0..255, and comparing inside Coq. The CALLERS of the launcher are covered "
+             "too (Model/C21_HookEnv.v: an Environment is a map reference, the command's routine reads it at arbitrary later "
+             "moments): for every call site that never writes a map once a command holds it, under every interleaving, each "
+             "read returns what the map held at Start; the code's one-ExternalCmdEnv()-per-event pattern has that discipline "
+             "and hands command i exactly event i's values; one shared, rewritten map is refuted (completion hook of segment "
+             "5 reads segment 6). A real core.path is driven on every run: startRecording's callbacks in rotation and other "
+             "orders, setOnline/setOffline with different queries, regex groups swapped in between, command routines held "
+             "back (GOMAXPROCS(1)) so that they read after later events; every command dumps argv and environ.",
         note="Trusted: Coq kernel+VM, the in-package driver (child = the test binary behind a symlink), execve/wait4 of the "
              "kernel. NUL bytes in values make Start fail (modelled, stated). The Windows variant is not covered.",
         technique="Coq proof (induction over template bytes / environment lists) + correspondence by vm_compute")
@@ -27,16 +39,50 @@ class C21(Prop):
             "backslash-escaped and ${} forms; intended words shipped and compared), hostile (random strings over quotes, "
             "backslashes, dollars, braces, blanks, 8-bit bytes), special (NUL, odd keys, no words); values from a hostile list "
             "(spaces, quotes, $G1, $(..), newlines, 8-bit, 300 bytes) and random; exit statuses 0..255 through /bin/sh, a sample "
-            "with Restart, death by SIGKILL. Non-trivial = a command that ran with at least one argument / a non-zero status; "
+            "with Restart, death by SIGKILL; hook-event rounds on a real core.path (30 quick / 400 thorough): 2-12 events "
+            "(segment create/complete in rotation, rotation+regex-group reload, random order; offline hooks of successive "
+            "online periods with different queries/sources; subsets of the three hooks configured), hostile path names, "
+            "segment names, groups; command routines delayed past all later events (75%) or yielding in between (25%); "
+            "classes hookenv/<order>/<delayed|yield>/<multi|single>. Non-trivial = a command that ran with at least one argument / a non-zero status; "
             "distinct = distinct (input, output) descriptions")
     trusted_base = ["Coq 8.16.1 kernel + VM (vm_compute for cases)", "in-package Go driver zz_verif_c21_test.go "
                     "(child process = the test binary reached through a symlink, dumping argv and environ)",
                     "model Model/C21_ExtCmd.v hand-written from cmd.go, cmd_os.go, go-shellquote unquote.go, os/env.go, "
                     "os/exec dedupEnvCase; tied by correspondence",
-                    "Linux execve/wait4 deliver argv, environ and the exit status unchanged"]
+                    "Linux execve/wait4 deliver argv, environ and the exit status unchanged",
+                    "in-package Go driver zz_verif_c21env_test.go (real core.path + hooks + externalcmd; commands are a "
+                    "/bin/sh script dumping its argv and /proc/$$/environ; the Go scheduler with GOMAXPROCS(1) holds the "
+                    "command routines back - if it does not, the round is still judged, only with earlier reads)",
+                    "model Model/C21_HookEnv.v (Go maps as references, New/Set/Start/Read steps) hand-written from "
+                    "path.go startRecording/setOnline/ExternalCmdEnv and internal/hooks; tied by correspondence"]
     assumptions = ["values hold no NUL byte (execve cannot carry one; Start fails, which the model states)",
                    "Env keys are non-empty, hold no '=' (the server's keys are fixed identifiers)",
-                   "unix build (cmd_os.go); cmd_os_windows.go not covered"]
+                   "unix build (cmd_os.go); cmd_os_windows.go not covered",
+                   "hook call sites driven on the real code: path.go segment hooks and setOnline/setOffline; the other call "
+                   "sites (onInit/onDemand/onAvailable in path.go, OnRead/OnConnect in the protocol servers) follow the same "
+                   "one-map-per-event pattern by inspection and are covered by the theorem only through the model"]
+
+
+    def run_drivers(self, ctx, n, seed, replay=None):
+        # other builders add drivers to internal/core; a half-written one must not break this check:
+        # the overlay gets the common helpers and this property's driver files only
+        orig = vlib.build_overlay
+
+        def only_mine(workdir, pkgdirs):
+            ov = orig(workdir, pkgdirs)
+            with open(ov) as fh:
+                d = json.load(fh)
+            d["Replace"] = {k: v for k, v in d["Replace"].items()
+                            if not re.match(r"zz_verif_c\d", os.path.basename(k))
+                            or re.match(r"zz_verif_c21", os.path.basename(k))}
+            with open(ov, "w") as fh:
+                json.dump(d, fh, indent=1)
+            return ov
+        vlib.build_overlay = only_mine
+        try:
+            return Prop.run_drivers(self, ctx, n, seed, replay)
+        finally:
+            vlib.build_overlay = orig
 
 
 PROP = C21()
